@@ -24,6 +24,7 @@ import (
 	"path"
 	"path/filepath"
 	"sort"
+	"strings"
 
 	"github.com/go-openapi/analysis"
 	"github.com/go-openapi/loads"
@@ -91,6 +92,9 @@ func newAppGenerator(name string, modelNames, operationIDs []string, opts *GenOp
 	}
 
 	operations := gatherOperations(analyzed, operationIDs)
+	if err := checkOperationsKept(analyzed, operations, operationIDs); err != nil {
+		return nil, err
+	}
 
 	if len(operations) == 0 && !opts.IgnoreOperations {
 		return nil, errors.New("no operations were selected")
@@ -307,6 +311,9 @@ func (a *appGenerator) makeCodegenApp() (GenApp, error) {
 		}
 	}
 	sort.Sort(genModels)
+	if err := checkDistinctModelNames(genModels, a.GenOpts.LanguageOpts); err != nil {
+		return GenApp{}, err
+	}
 
 	log.Printf("planning operations (found: %d)", len(a.Operations))
 
@@ -402,6 +409,9 @@ func (a *appGenerator) makeCodegenApp() (GenApp, error) {
 		genOps = append(genOps, op)
 	}
 	sort.Sort(genOps)
+	if err := checkDistinctOperationNames(genOps); err != nil {
+		return GenApp{}, err
+	}
 
 	opsGroupedByPackage := make(map[string]GenOperations, len(genOps))
 	for _, operation := range genOps {
@@ -597,4 +607,61 @@ func trimTags(in []spec.Tag) []spec.Tag {
 	}
 
 	return tags
+}
+
+// checkOperationsKept makes sure that every operation of the spec got a name of its own:
+// two operations without an operationId may be given the same name, and only one of them would be generated.
+func checkOperationsKept(analyzed *analysis.Spec, operations map[string]opRef, operationIDs []string) error {
+	if len(pruneEmpty(operationIDs)) > 0 {
+		return nil // only a selection of operations was requested
+	}
+	kept := make(map[string]string, len(operations))
+	for name, opr := range operations {
+		kept[opr.Method+" "+opr.Path] = name
+	}
+	var dropped []string
+	for method, pathItem := range analyzed.Operations() {
+		for pth := range pathItem {
+			if _, ok := kept[method+" "+pth]; !ok {
+				dropped = append(dropped, method+" "+pth)
+			}
+		}
+	}
+	if len(dropped) == 0 {
+		return nil
+	}
+	sort.Strings(dropped)
+	return fmt.Errorf("operations %s would get the same name as another operation: please set a distinct operationId", strings.Join(dropped, ", "))
+}
+
+// checkDistinctModelNames makes sure that two definitions are not rendered as the same go type or source file.
+func checkDistinctModelNames(models GenDefinitions, lang *LanguageOpts) error {
+	types := make(map[string]string, len(models))
+	files := make(map[string]string, len(models))
+	for _, m := range models {
+		goName := pascalize(m.Name)
+		if prev, ok := types[goName]; ok && prev != m.Name {
+			return fmt.Errorf("definitions %q and %q are both rendered as go type %s: please rename one of them", prev, m.Name, goName)
+		}
+		types[goName] = m.Name
+		file := strings.ToLower(lang.MangleFileName(goName))
+		if prev, ok := files[file]; ok && prev != m.Name {
+			return fmt.Errorf("definitions %q and %q are both rendered in source file %s.go: please rename one of them", prev, m.Name, file)
+		}
+		files[file] = m.Name
+	}
+	return nil
+}
+
+// checkDistinctOperationNames makes sure that two operations in the same package are not rendered with the same go name.
+func checkDistinctOperationNames(ops GenOperations) error {
+	names := make(map[string]string, len(ops))
+	for _, op := range ops {
+		key := op.PackageAlias + "." + pascalize(op.Name)
+		if prev, ok := names[key]; ok && prev != op.Name {
+			return fmt.Errorf("operations %q and %q are both rendered as go name %s: please rename one of them", prev, op.Name, pascalize(op.Name))
+		}
+		names[key] = op.Name
+	}
+	return nil
 }
